@@ -135,6 +135,59 @@ def label_of(text_line):
     m = re.search(r"//\s*\[([A-Za-z0-9_.\-]+)\]", text_line or "")
     return m.group(1) if m else None
 
+SKELETON_RE = re.compile(r"\b(?:if|else|match|return|while|for|loop|break|continue)\b|=>|\?|(?:(?<=[(,={;])|(?<=\bmove)|(?<=\breturn))\s*\|\|?")
+def skeleton(text):
+    """the control-flow skeleton of a piece of token text: branching / looping / exit keywords, match arrows, `?`, closure heads"""
+    text = re.sub(r"//[^\n]*", " ", text)
+    out = []
+    for m in SKELETON_RE.finditer(text):
+        t = m.group(0).strip()
+        if t == "if" and re.match(r"[^{};]*?=>", text[m.end():]):
+            t = "arm-guard-if"      # `PAT if cond => ..`
+        out.append("|closure|" if t.startswith("|") else t)
+    return out
+
+def is_subsequence(a, b):
+    it = iter(b)
+    return all(any(x == y for y in it) for x in a)
+
+
+def line_in_loop(text, line):
+    """is the given line of the generated text inside the body of a `while` / `loop` / `for`?"""
+    toks = extract.tokenize(text)
+    off = 0
+    for _ in range(line - 1):
+        off = text.find("\n", off) + 1
+    # index of the first token at or after the line start
+    k = 0
+    while k < len(toks) and toks[k].start < off: k += 1
+    depth = 0
+    j = k - 1
+    while j >= 0:
+        tx = toks[j].text
+        if tx == "}": depth += 1
+        elif tx == "{":
+            if depth == 0:
+                # an enclosing block: what introduces it?
+                q = j - 1; d2 = 0
+                while q >= 0:
+                    t2 = toks[q].text
+                    if t2 in (")", "]"): d2 += 1
+                    elif t2 in ("(", "["):
+                        if d2 == 0: break
+                        d2 -= 1
+                    elif d2 == 0 and t2 in (";", "{", "}"):
+                        break
+                    elif d2 == 0 and t2 in ("while", "loop", "for"):
+                        return True
+                    elif d2 == 0 and t2 in ("fn",):
+                        return False
+                    q -= 1
+            else:
+                depth -= 1
+        j -= 1
+    return False
+
 def is_proof_hint(f, fns):
     """a failing obligation that is only a proof hint: an `assert` of the spliced proof text (not a debug_assert! of the code, which
     rule D2 writes as `assert(__c)` / `assert(__eq)`), or the precondition of a lemma (proof fn) call"""
@@ -204,6 +257,52 @@ def prune_statements(text, spans):
     return out
 
 def run_unit(unit, workdir, seed=None, rlimit=None, do_canary=True, keep=None):
+    """Two stages.  The plain token merge first.  Only if /repo changed in a way that leaves the merged text uncompilable
+    (blocks exchanged, a loop turned into an `if`, a statement moved past spliced proof text) the merge is repeated with the
+    structural heuristics of extract.py; after such a merge the placement of proof text is uncertain, so only a complete pass
+    is accepted (the changed code meets every contract: quiet) and any failing obligation leaves the outcome undecided."""
+    try:
+        ur1 = _run_unit(unit, workdir, seed=seed, rlimit=rlimit, do_canary=do_canary, keep=keep, structural=False)
+    except Undecided as e:
+        if getattr(e, "try_structural", False):
+            # the plain merge's failures were judged inconclusive: a complete pass under the structural merge still settles it
+            try:
+                ur2 = _run_unit(unit, workdir, seed=seed, rlimit=rlimit, do_canary=False, keep=None, structural=True)
+                if not ur2.fails:
+                    log("unit %s: obligations failed under the plain merge but the structural merge verifies completely: the changed code meets its contracts" % unit)
+                    return ur2
+            except Undecided:
+                pass
+            raise Undecided(str(e) + "\n   (the structural merge does not verify completely either)")
+        if "does not compile" not in str(e) or not getattr(e, "drift", False):
+            raise
+        first = str(e)
+        try:
+            return _run_unit(unit, workdir, seed=seed, rlimit=rlimit, do_canary=do_canary, keep=keep, structural=True)
+        except Undecided as e2:
+            raise Undecided(first.split("\n")[0] + "\n   (second attempt with the structural merge: " + str(e2).split("\n")[0][:300] + ")\n" + "\n".join(first.split("\n")[1:]))
+    if ur1.fails and ur1.asm["drift"]:
+        # the plain merge compiles but obligations fail: before reporting them, see whether another alignment of the PROOF TEXT with
+        # the same (audited) executable text verifies completely - a complete proof is a proof, whatever merge produced it
+        try:
+            ur2 = _run_unit(unit, workdir, seed=seed, rlimit=rlimit, do_canary=False, keep=None, structural=True)
+            if not ur2.fails:
+                log("unit %s: %d obligation(s) failed under the plain merge (%s) but the structural merge verifies completely: the changed code meets its contracts" % (
+                    unit, len(ur1.fails), ", ".join(f["obligation"] for f in ur1.fails[:3])))
+                ur2.canary = ur1.canary
+                return ur2
+        except Undecided:
+            pass
+    return ur1
+
+def _run_unit(unit, workdir, seed=None, rlimit=None, do_canary=True, keep=None, structural=False):
+    extract.STRUCTURAL = structural
+    try:
+        return _run_unit_inner(unit, workdir, seed, rlimit, do_canary, keep, structural)
+    finally:
+        extract.STRUCTURAL = False
+
+def _run_unit_inner(unit, workdir, seed, rlimit, do_canary, keep, structural):
     u = CONF["units"][unit]
     frags = [os.path.join(VERIF, "units", f) for f in u["fragments"]]
     t0 = time.time()
@@ -353,7 +452,67 @@ def run_unit(unit, workdir, seed=None, rlimit=None, do_canary=True, keep=None):
         if pruned:
             log("unit %s: %d proof hint(s) failed after a repository change and were taken out before deciding: %s" % (unit, len(pruned), ", ".join(pruned[:6])))
     if vr.get("encountered-vir-error") or unknown:
-        raise Undecided("unit %s: the generated text does not compile / is outside the verifier's subset:\n%s" % (unit, "\n".join(unknown + tools)[:4000]))
+        ex_ = Undecided("unit %s: the generated text does not compile / is outside the verifier's subset:\n%s" % (unit, "\n".join(unknown + tools)[:4000]))
+        ex_.drift = bool(asm["drift"])
+        raise ex_
+    if structural and fails:
+        raise Undecided("unit %s: /repo changed the structure of a function under contract; the structural merge compiles but %d obligation(s) fail (%s) - "
+                        "after such a merge the placement of the proof text is uncertain: not decided" % (unit, len(fails), ", ".join(f["obligation"] for f in fails[:4])))
+    # ---- a loop invariant written before a repository change cannot mention a local variable the change INTRODUCES: inside the
+    # loop the verifier then lacks that variable's defining equation, and what fails there is inconclusive (hoisting an expression
+    # out of a loop is the typical harmless case).  If the repository added a `let` to a function and ALL of that function's failing
+    # obligations lie inside loops, the outcome is undecided (exit 2), not a violation.
+    if asm["drift"] and fails:
+        new_lets = {}
+        for (it_, op_, had_, has_) in asm["drift"]:
+            if op_ in ("insert", "replace", "insert-at") and re.search(r"\blet\b", has_ or "") and not re.search(r"\blet\b", had_ or ""):
+                new_lets[(it_.container, it_.name)] = has_[:80]
+        if new_lets:
+            byfn = {}
+            for f in fails: byfn.setdefault(f["fn"], []).append(f)
+            inconclusive = []
+            for fn_, fs in byfn.items():
+                src_items = set((f["source"]["item"] if f.get("source") else None) for f in fs)
+                touched = any((c + " :: " + n) in src_items for (c, n) in new_lets)
+                if touched and all(line_in_loop(gen, f["span"][0]) for f in fs):
+                    inconclusive += [f["obligation"] for f in fs]
+            if inconclusive and len(inconclusive) == len(fails):
+                raise Undecided("unit %s: the repository introduced a new local variable (%s) and every failing obligation lies inside a loop whose invariant "
+                                "cannot know it (%s): not decided" % (unit, "; ".join(new_lets.values())[:120], ", ".join(inconclusive[:4])))
+    # ---- NEW CONTROL FLOW.  The proof text of a function was written for the control-flow skeleton the function had.  When the
+    # repository gives the function skeleton tokens it did not have (a new `return` / `else` / `?`, a match-arm guard, a loop of
+    # another kind, a closure; compared as multisets over the whole item) there are paths for which no proof text exists and constructs
+    # the verifier may handle incompletely (Verus cannot prove `*final(self) == *old(self)` at `_ => return None` after a guarded
+    # arm, for one): a failing obligation in such a function is a failed PROOF, not evidence against the code.  Both merges have
+    # been tried at this point (a complete pass would have been accepted); what fails in such a function is undecided (exit 2).
+    # A change that keeps the skeleton or only REMOVES from it (a guard dropped, a branch deleted, any change of expressions,
+    # conditions, arguments, statements), or that purely INSERTS one guarded early exit, is decided as before: the named obligation
+    # is the violation.
+    if asm["drift"] and fails and os.environ.get("PGVERIF_NO_SKELETON_RULE") != "1":
+        import collections
+        reshaped, exempt = {}, {}
+        for (it_, op_, had_, has_) in asm["drift"]:
+            key = it_.container + " :: " + it_.name
+            if op_ == "insert" and not (had_ or "").strip() and re.match(r"^\s*if\b[^{}|]*\{\s*return\b[^{}|;]*;\s*\}\s*$", re.sub(r"//[^\n]*", " ", has_ or "")) and "=>" not in has_:
+                # a PURE INSERTION of one guarded early exit `if c { return e; }`: no existing text moved or went away, the only new path is
+                # the inserted one and what must hold there is the function's postcondition at that exit - decided on its own
+                exempt.setdefault(key, collections.Counter()).update(skeleton(has_))
+        for it_ in set(d_[0] for d_ in asm["drift"]):
+            key = it_.container + " :: " + it_.name
+            k_old = collections.Counter(skeleton(getattr(it_, "old_text", "")))
+            k_new = collections.Counter(skeleton(getattr(it_, "new_text", ""))) - exempt.get(key, collections.Counter())
+            extra = k_new - k_old
+            if extra:
+                reshaped[key] = " ".join(sorted(extra.elements()))
+        if reshaped:
+            inconclusive = [f for f in fails if f.get("source") and f["source"]["item"] in reshaped]
+            if inconclusive and len(inconclusive) == len(fails):
+                ex_ = Undecided("unit %s: the repository gave %s control flow its proof text was not written for (new skeleton tokens among: %s); %d obligation(s) "
+                                "of that function fail (%s) - a failed proof, not evidence against the code: not decided" % (
+                                    unit, ", ".join(sorted(reshaped))[:200], "; ".join(reshaped.values())[:120], len(fails), ", ".join(f["obligation"] for f in fails[:4])))
+                ex_.try_structural = True
+                raise ex_
+            fails = [f for f in fails if f not in inconclusive]
     bd = breakdown(r["res"])
     # functions that hit rlimit are reported as tool limits
     if tools:
